@@ -66,3 +66,69 @@ Print Assumptions C15_eval_dead.
 Print Assumptions C15_eval_step_indep.
 Print Assumptions C15_eval_pure.
 Print Assumptions C15_interp_odd.
+
+(** ---- Tie of the switches that UCI cannot reach and of the default settings (design/12, item 3).
+    The correspondence stream `eval_model_vs_engine` (verifh c15-cases) runs Evaluate under the 32
+    combinations of the five switches and writes, per position, (switch vector, value) pairs; the
+    generated file evaluates [CasesModels.eval_mismatches] (marker `M = []`) and
+    [CasesModels.eval_defaults_mismatches] on the dumped content of config.Settings.Eval
+    (marker `D = []`).  The theorems below say what the two markers mean. *)
+From FG Require Import CasesLib CasesModels.
+Open Scope Z_scope.
+
+(* `M = []`: on every listed position and switch vector the model [evaluate] returns the engine's value *)
+Theorem C15_eval_cases_check_sound :
+  forall (cases : list (Coq.Strings.String.string * Z * list (N * Z))),
+         eval_mismatches cases = [] ->
+         forall fen gp l sw obs, In (fen, gp, l) cases -> In (sw, obs) l ->
+         exists p, parse (str_of_string fen) = Some p /\ evaluate (cfg_of_sw sw) p gp = Some obs.
+Proof. exact eval_cases_check_sound. Qed.
+
+(* the per-vector check is EvalImpl.eval_case_full *)
+Theorem C15_eval_case_is_eval_case_full :
+  forall (fen : Coq.Strings.String.string) (gp : Z) (l : list (N * Z)),
+         eval_case (fen, gp, l) =
+         map fst (filter (fun x : N * Z =>
+                            negb (eval_case_full (str_of_string fen) gp (N.testbit (fst x) 0%N) (N.testbit (fst x) 1%N)
+                                                 (N.testbit (fst x) 2%N) (N.testbit (fst x) 3%N) (N.testbit (fst x) 4%N) (snd x))) l).
+Proof.
+  intros fen gp l. rewrite eval_case_eq. unfold eval_case_spec. f_equal. apply filter_ext. intros [sw obs]. reflexivity.
+Qed.
+
+(* the tabulated evaluation used for speed is the model *)
+Theorem C15_evaluate_tab_eq :
+  forall (cfg : eval_cfg) (p : pos) (gp : Z), evaluate_tab cfg p gp = evaluate cfg p gp.
+Proof. exact evaluate_tab_eq. Qed.
+
+(* the 32 vectors are all combinations of the five switches over the default numbers *)
+Theorem C15_switch_vectors_cover :
+  forall lz adv att mob kng : bool,
+         exists sw : N, (sw < 32)%N /\ cfg_of_sw sw = cfg_switches default_cfg lz adv att mob kng.
+Proof. exact cfg_of_sw_all. Qed.
+
+(* `D = []`: the engine's start-up settings are the model's [default_cfg] (and the two unread
+   pawn-cache fields have their declared defaults) *)
+Theorem C15_default_cfg_check_sound :
+  forall d : list Z, eval_defaults_mismatches d = [] -> d = pawn_cache_defaults ++ cfg_fields default_cfg.
+Proof. exact eval_defaults_check_sound. Qed.
+
+(* ... and the compared list determines the settings record: no field is left out *)
+Theorem C15_cfg_fields_inj :
+  forall c1 c2 : eval_cfg, cfg_fields c1 = cfg_fields c2 -> c1 = c2.
+Proof. exact cfg_fields_inj. Qed.
+
+(* evalconfig.go:61-91 as the model has it: UsePawnCache PawnCacheSize UseLazyEval LazyEvalThreshold Tempo
+   UseAttacksInEval UseMobility MobilityBonus UseAdvancedPieceEval BishopPairBonus MinorBehindPawnBonus
+   BishopPawnMalus BishopCenterAimBonus BishopBlockedMalus RookOnQueenFileBonus RookOnOpenFileBonus
+   RookTrappedMalus KingRingAttacksBonus UseKingEval KingDangerMalus KingDefenderBonus *)
+Theorem C15_default_cfg_fields :
+  engine_fields default_cfg = [0; 64; 0; 700; 34; 0; 0; 5; 0; 20; 15; 5; 20; 40; 6; 25; 40; 10; 0; 50; 10].
+Proof. reflexivity. Qed.
+
+Print Assumptions C15_eval_cases_check_sound.
+Print Assumptions C15_eval_case_is_eval_case_full.
+Print Assumptions C15_evaluate_tab_eq.
+Print Assumptions C15_switch_vectors_cover.
+Print Assumptions C15_default_cfg_check_sound.
+Print Assumptions C15_cfg_fields_inj.
+Print Assumptions C15_default_cfg_fields.
